@@ -159,6 +159,13 @@ Scan(t, s, items) ==
   /\ IsSortedDump(items, View(t, s))
   /\ UNCHANGED vars
 
+\* an operation / open failed with an (injected) error: the B-tree wrapper rolls the transaction back
+FailedCall(t) ==
+  /\ Active(t) /\ tx[t].armed
+  /\ cat' = WithoutAll(cat, tx[t].created)
+  /\ db'  = WithoutAll(db, tx[t].created)
+  /\ SetTx(t, [tx[t] EXCEPT !.st = "done", !.outcome = "rolledback"])
+
 \* ---- end of transaction ----
 CommitStart(t) ==
   /\ Active(t)
